@@ -628,6 +628,13 @@ func runC04(ctx *core.Ctx) {
 		ctx.Check(ok, "I7", "testscript.TestScript#deferred-writers", token.NoPos, "deferred is assigned at construction and by Defer, which wraps the previous chain (%d writers)", len(ws))
 	}
 	// ---- I8
+	cacheKeyRule(ctx, "I8")
+	c04More(ctx)
+}
+
+// cacheKeyRule: shared-cache key sufficiency (C04.I8, also used by C01).
+func cacheKeyRule(ctx *core.Ctx, rule string) {
+	p := ctx.P
 	{
 		n := 0
 		for _, f := range p.ModFuncs() {
@@ -642,7 +649,7 @@ func runC04(ctx *core.Ctx) {
 					cb = mc.Fn.(*ssa.Function)
 				}
 				if cb == nil {
-					ctx.Bad("I8", shortFn(f)+"#execCache"+itoa(n), c.Pos(), "callback is not a function literal")
+					ctx.Bad(rule, shortFn(f)+"#execCache"+itoa(n), c.Pos(), "callback is not a function literal")
 					continue
 				}
 				reads := tsFieldsRead(p, []*ssa.Function{cb})
@@ -669,12 +676,49 @@ func runC04(ctx *core.Ctx) {
 						missing = append(missing, k)
 					}
 				}
+				// finer: the script variables the computation looks up by constant name (through a
+				// func(string) string parameter, e.g. execpath.Look's getenv) must each be read from the
+				// script's environment in the key
+				need := map[string]bool{}
+				for _, rf := range reachableMod(p, []*ssa.Function{cb}, nil) {
+					graph(p, rf).Instrs(func(i ssa.Instruction) {
+						cc, ok := i.(*ssa.Call)
+						if !ok || len(cc.Call.Args) != 1 {
+							return
+						}
+						if _, isParam := cc.Call.Value.(*ssa.Parameter); !isParam {
+							if ph, isPhi := cc.Call.Value.(*ssa.Phi); !isPhi || ph == nil {
+								return
+							}
+						}
+						if cc.Call.Value.Type().String() != "func(string) string" {
+							return
+						}
+						if name, ok := ssax.ConstString(cc.Call.Args[0]); ok {
+							need[name] = true
+						}
+					})
+				}
+				have := map[string]bool{}
+				ssax.DerivedFrom(c.Call.Args[1], func(v ssa.Value) bool {
+					if cc, ok := isCallSuffix(v, "TestScript).Getenv"); ok {
+						if name, ok := ssax.ConstString(cc.Call.Args[1]); ok {
+							have[name] = true
+						}
+					}
+					return false
+				}, func(cc *ssa.Call) bool { return true })
+				for name := range need {
+					if !have[name] {
+						missing = append(missing, "$"+name)
+					}
+				}
 				sort.Strings(missing)
-				ctx.Check(len(missing) == 0, "I8", shortFn(f)+"#execCache"+itoa(n), c.Pos(), "the cached computation reads TestScript field(s) %v that the cache key does not depend on: the first script to ask fixes the answer for every other script in the process, whatever their own state", missing)
+				ctx.Check(len(missing) == 0, rule, shortFn(f)+"#execCache"+itoa(n), c.Pos(), "the cached computation reads TestScript field(s) %v that the cache key does not depend on: the first script to ask fixes the answer for every other script in the process, whatever their own state", missing)
 			}
 		}
 		if n == 0 {
-			ctx.OKTrivial("I8", "testscript#execCache-unused", token.NoPos, "the process-wide exec cache is not used")
+			ctx.OKTrivial(rule, "testscript#execCache-unused", token.NoPos, "the process-wide exec cache is not used")
 		}
 	}
 }
@@ -742,4 +786,60 @@ func derivesFromStoreOfPred(b ssa.Value, m func(ssa.Value) bool) bool {
 		}
 	}
 	return false
+}
+
+func c04More(ctx *core.Ctx) {
+	p := ctx.P
+	ctx.Rule("I3b", "exact files: the helper that writes an archive entry into the work directory opens it with O_CREATE|O_WRONLY and O_TRUNC (or O_EXCL when unique names are required), so a later, shorter entry of the same name or a reused work directory never leaves a stale tail", 1)
+	if wf := p.Func("testscript", "writeFile"); wf != nil {
+		g := graph(p, wf)
+		n := 0
+		for _, c := range g.Calls("os.OpenFile") {
+			n++
+			vals, ok := ssax.PossibleInts(c.Call.Args[1])
+			good := ok
+			for _, v := range vals {
+				if v&osFlag(p, "O_CREATE") == 0 || (v&osFlag(p, "O_TRUNC") == 0 && v&osFlag(p, "O_EXCL") == 0) {
+					good = false
+				}
+			}
+			ctx.Check(good, "I3b", "testscript.writeFile#flags", c.Pos(), "open flags %v each contain O_CREATE and O_TRUNC or O_EXCL", vals)
+		}
+		if n == 0 {
+			ctx.Note("I3b", "testscript.writeFile#flags", wf.Pos(), "writeFile does not call os.OpenFile; not decided")
+			ctx.OKTrivial("I3b", "testscript.writeFile#other", wf.Pos(), "not decided")
+		}
+	} else {
+		ctx.Note("I3b", "testscript.writeFile", token.NoPos, "helper not found; not decided")
+		ctx.OKTrivial("I3b", "testscript.writeFile#absent", token.NoPos, "not decided")
+	}
+	ctx.Rule("I6c", "no failure between start and recording: from a successful start of a background command to the store that records it in TestScript.background no Fatalf/Check is reachable (a process started but not yet recorded would be neither interrupted nor reaped)", 1)
+	for _, f := range tsFuncs(p) {
+		g := graph(p, f)
+		for k, c := range g.Calls("(*" + tsPkg + ".TestScript).execBackground") {
+			errv := ssax.Extracted(c, 1)
+			bad := ""
+			for _, b := range f.Blocks {
+				if !g.Reach[b.Index] || !ssax.KnownNil(g.FactsAt(b.Index), errv, true) {
+					continue
+				}
+				if id := g.Idom(b.Index); id >= 0 && ssax.KnownNil(g.FactsAt(id), errv, true) {
+					continue
+				}
+				for _, e := range g.MustPass(ssax.Point{Block: b.Index}, func(i ssa.Instruction) bool {
+					st, ok := i.(*ssa.Store)
+					if !ok {
+						return false
+					}
+					fa, ok := st.Addr.(*ssa.FieldAddr)
+					return ok && ssax.FieldOf(fa).Name() == "background"
+				}, true) {
+					if ssax.IsCallTo(e.Last, tsFatalf, tsCheck) {
+						bad = "Fatalf at " + p.Pos(e.Last.Pos()) + " reachable after the process started and before it is recorded"
+					}
+				}
+			}
+			ctx.Check(bad == "", "I6c", shortFn(f)+"#start-to-record"+itoa(k+1), c.Pos(), "nothing can fail between the successful start and the recording %s", bad)
+		}
+	}
 }
